@@ -1,9 +1,59 @@
 import WzVerif.Driver.Proto
+import WzVerif.Driver.C01
+import WzVerif.Model.Urlencode
 namespace Wz.Driver.C02
-open Wz Wz.Proto
+open Wz Wz.Proto Wz.Urlencode
 
-/-- stub: no model commands yet -/
-def handle : Handler
+/-! Line protocol of the URL-encoded form model (used by the C02 and C10 drivers); the multipart
+commands (`mp.*`) are those of Driver/C01.
+
+`url.quoteplus  safe bytes`        `quote_plus(bytes, safe)`
+`url.urlencode  k:v,k:v…`          `werkzeug.urls._urlencode(items)`
+`url.unquote    text`              `unquote(text, errors="werkzeug.url_quote")`
+`url.parseqsl   keepBlank text`    `parse_qsl(text, keep_blank_values, errors="werkzeug.url_quote")`
+`url.form       maxMem contentLength sched body`   `FormDataParser._parse_urlencoded`
+-/
+
+def pairsOut (l : List (Str × Str)) : String :=
+  outList (fun (k, v) => hexStr k ++ ":" ++ hexStr v) l
+
+def pairArg (s : String) : Option (Str × Str) :=
+  match s.splitOn ":" with
+  | [k, v] => do
+    let k ← unhexStr k
+    let v ← unhexStr v
+    pure (k, v)
+  | _ => none
+
+def urlHandle : Handler
+  | "url.quoteplus", [safe, bs] =>
+    match unhex safe, unhex bs with
+    | some safe, some bs => some (hex (quotePlus safe bs))
+    | _, _ => some badArgs
+  | "url.urlencode", [items] =>
+    match C01.listArg pairArg items with
+    | some items => some (hex (wzUrlencode items))
+    | none => some badArgs
+  | "url.unquote", [s] =>
+    match unhexStr s with
+    | some s => some (hexStr (unquote s))
+    | none => some badArgs
+  | "url.parseqsl", [kb, s] =>
+    match boolArg kb, unhexStr s with
+    | some kb, some s => some (pairsOut (parseQsl kb s))
+    | _, _ => some badArgs
+  | "url.form", [mm, cl, sched, body] =>
+    match optArg natArg mm, optArg natArg cl, C01.listArg natArg sched, unhex body with
+    | some mm, some cl, some sched, some body =>
+      some ((match parseUrlencoded mm cl sched body with
+        | .ok items => pairsOut items
+        | .error e => "EXC:" ++ e) ++ "|" ++ toString (urlencodedRead mm cl sched body).2)
+    | _, _, _, _ => some badArgs
   | _, _ => none
+
+def handle : Handler := fun cmd args =>
+  match C01.handle cmd args with
+  | some r => some r
+  | none => urlHandle cmd args
 
 end Wz.Driver.C02
